@@ -495,6 +495,8 @@ func (cs *Contracts) parseFile(path, src string) error {
 			cur.Props = append(cur.Props, strings.Fields(rest)...)
 		case "exact":
 			cur.Options["exact"] = true
+		case "operands-kept":
+			cur.Options["operands-kept"] = true
 		case "option":
 			cur.Options[rest] = true
 		case "define":
@@ -527,6 +529,16 @@ func (cs *Contracts) parseFile(path, src string) error {
 				cs.PureMethods[f] = true
 			}
 			cs.Assumed = append(cs.Assumed, "interface method "+rest+" is a pure function of its receiver")
+		case "every-function":
+			// every-function <pkg> <contract>: a contract that every function of the package is under
+			f := strings.Fields(rest)
+			if len(f) != 2 {
+				return fmt.Errorf("%s:%d: every-function <package> <contract>", path, ln)
+			}
+			if cs.Sweeps == nil {
+				cs.Sweeps = map[string][]string{}
+			}
+			cs.Sweeps[f[1]] = append(cs.Sweeps[f[1]], f[0])
 		case "assume-contract":
 			cs.Assumed = append(cs.Assumed, rest)
 		default:
